@@ -465,7 +465,10 @@ let apply_precheck r fn op a b =
              | "rreach_fs" | "rreach_nofs" | "rreach_sat" -> (not fa.rel) && fb.rel && (not fr.rel)
              | "mv" -> fa.rel && (not fb.rel) && (not fr.rel)
              | _ -> fa.rel = fr.rel && fb.rel = fr.rel in
-           if not shape_ok then Some "TYPE_MISMATCH" else None
+           if not shape_ok then Some "TYPE_MISMATCH"
+           (* the forests must be in the same variable order (checked at every call) *)
+           else if fa.order <> fr.order || fb.order <> fr.order then Some "INVALID_OPERATION"
+           else None
        | _ -> None)
     | _ -> None
 
@@ -532,6 +535,12 @@ let rec run toks =
   | "attached" :: a :: _ ->
     if not (Hashtbl.mem edge_ids a) then raise Unsupported;
     emit (if edge_attached a then "attached 1" else "attached 0 node=0")
+  | "unaryinto" :: x :: _ :: a :: _ ->
+    (* a detached edge as the operand or the result of a unary operation is rejected *)
+    let detached n = Hashtbl.mem edge_ids n && not (edge_attached n) in
+    if detached x || detached a then raise (Err "NOT_IMPLEMENTED") else begin
+      Hashtbl.remove edges x; Hashtbl.remove evtabs x; raise Unsupported
+    end
   | "reattach" :: a :: fn :: _ ->
     (* dd_edge::attach: the edge becomes the transparent edge of the forest *)
     Hashtbl.remove edges a; Hashtbl.remove evtabs a;
